@@ -53,6 +53,36 @@ Definition views_sx (M : result matcher) (path : str) : sx :=
                        match_sx (match_ M path)]]
   end.
 
+(* derivation chains: the model has no regex cache, so a derived matcher is a
+   function of the construction chain alone (what history independence demands) *)
+Definition reroot (M : matcher) (root : option str) : matcher :=
+  mkm (with_root (m_pat M) root) (m_env M).
+
+Definition apply_op (M : matcher) (op : sx) : result matcher :=
+  match to_Z (nth_sx 0 op) with
+  | 0 => with_env M (to_kv (nth_sx 1 op))                       (* m.with_env(env) *)
+  | 1 => Ok (reroot M (to_root (nth_sx 1 op)))                   (* Matcher(m, root=r) *)
+  | _ => do M2 <- mk_matcher (to_str (nth_sx 1 op)) (to_kv (nth_sx 2 op)) None;
+         concat_matcher M M2                                      (* m.concat(Matcher(p, env)) *)
+  end.
+
+Fixpoint apply_ops (M : result matcher) (ops : list sx) : result matcher :=
+  match ops with
+  | [] => M
+  | op :: ops' => apply_ops (do m <- M; apply_op m op) ops'
+  end.
+
+Definition chain_sx (M : result matcher) (partner : result matcher) (paths : list str) : sx :=
+  match M, partner with
+  | Ok M, Ok Q =>
+      L [A 0; L [of_result of_str (str_of M); of_result of_str (prefix M);
+                 of_list (fun p => match_sx (match_ M p)) paths;
+                 of_list (fun p => of_result (of_option of_str) (sub M Q p)) paths;
+                 of_list (fun p => of_result (of_option of_str) (sub Q M p)) paths]]
+  | Raise t, _ => L [A 1; A (tag_code t)]
+  | _, Raise t => L [A 1; A (tag_code t)]
+  end.
+
 Definition dispatch (f : Z) (x : sx) : sx :=
   match f with
   | 0 => of_result pattern_sx (parse_pattern (to_str (nth_sx 0 x)))
@@ -81,5 +111,7 @@ Definition dispatch (f : Z) (x : sx) : sx :=
             (do M <- matcher_of x 0; do M2 <- matcher_of x 3; Ok (matcher_eqb M M2))
   | 13 => of_result of_str
             (expand_fn (to_root (nth_sx 0 x)) (to_str (nth_sx 1 x)) (to_kv (nth_sx 2 x)))
+  | 14 => chain_sx (apply_ops (matcher_of x 0) (to_list (fun o => o) (nth_sx 3 x)))
+                   (matcher_of x 5) (to_list to_str (nth_sx 4 x))
   | _ => sx_err
   end.
